@@ -131,6 +131,24 @@ instance decRefused (r : PRes) : Decidable (refused r) := by
 
 end PCall
 
+/-- **"The values handed to the API are in the XML domain"** (`valueOK`, Model/SerTokens.lean: names are
+    NCNames, text / comment / PI / attribute values are XML characters without the forbidden sequences,
+    text is not empty, an `xml:id` value is normalised, a declaration is one the parser would accept):
+    the condition on the ARGUMENTS of an extended call under which — so the conjecture
+    `C01_edited_values_Statement`, Props/C01.lean — an edited tree keeps `valueOK` at every node.  The
+    calls not listed create no value: they move, copy or remove nodes, or concatenate text nodes. -/
+def Forest.XCall.argValuesOK (env : Env) : Forest.XCall → Prop
+  | .newNode v => valueOK env v = true
+  | .call (.mapInsert _ _ e) => valueOK env e = true
+  | .call (.setText _ s) => valueOK env (.text s) = true
+  | .call (.setComment _ s) => valueOK env (.comment s) = true
+  | .call (.setPiData _ d) => ∀ t, valueOK env (.pi t none) = true → valueOK env (.pi t d) = true
+  | .call (.textContentSet _ s) => s = [] ∨ valueOK env (.text s) = true
+  | .call (.elementWrap _ name) => valueOK env (.element name) = true
+  | .call (.setElementName _ name) => valueOK env (.element name) = true
+  | .cloneWithPrefixes _ order => ∀ b ∈ order, valueOK env (.namespace b.1 b.2) = true
+  | _ => True
+
 namespace PStore
 
 /-- The state after a step, whatever it answered. -/
